@@ -21,6 +21,11 @@ Reference statements (this file):
     subscript on a scalar / key of the wrong kind gives no value (SQL NULL) - never an error;
   * `key in doc[path]`, `bool(doc[path])`, `len(doc[path])` as in Python on the decoded value (no value: false / 0);
   * arrays: a[i], a[i:j], len(a), x in a, all(x in a for x in items) as in Python; a NULL array gives NULL.
+
+Section 4 runs whole queries on a real in-memory SQLite database (translator monads + builder + json1 / fallbacks) for
+solver-chosen (document, operation, keys, json1 switch); where Python raises for the row (subscript of a scalar, len of a
+number, comparison operand missing in a filter) nothing is demanded; subscripts of string leaves and `in` on string leaves
+are left out (Python indexes / searches the characters; JSON has no value there).
 """
 import json, os, re
 from typing import List, Optional
@@ -57,6 +62,8 @@ def classify(fn, cex):
     if fn in ('traverse_str_key_on_list', 'json_query_top_level_array'): return 'sqlite-json-fallback-string-key-on-array-raises'
     if fn == 'json_truthiness_sqlite_float': return 'sqlite-json-float-zero-is-truthy'
     if fn == 'json_length_non_array': return 'json-len-of-object-or-string-is-zero'
+    if fn == 'json_e2e_scalar_compare': return 'sqlite-json-scalar-comparison-casts-stored-value'
+    if fn == 'json_e2e_negative_index': return 'sqlite-json-negative-index-' + ('json1-path-error' if cex.get('json1') else 'fallback')
     return None
 
 
@@ -620,3 +627,210 @@ def array_slice(n: int, start: Optional[int], stop: Optional[int], null: bool) -
             one = sq.py_array_index(sq.dumps(arr), s)
             if one != (arr[s] if -n <= s < n else None): return ok(False)
         return ok(True)
+
+
+# ---------------------------------------------------------------------------------------------------------------
+# 4. end to end on a real in-memory SQLite database: translator (JsonMixin / JsonItemMonad / ArrayMixin) + builder +
+#    SQLite (json1 or pony's Python fallbacks).  The solver chooses document, operation, keys and the json1 switch from
+#    pools; the query runs under NoTracing; the answer is compared with the same expression evaluated by Python on the
+#    decoded document.  Regions of the findings reported by the kernels above are left out of the pools (each has its
+#    own harness), so that anything else still surfaces here.
+# ---------------------------------------------------------------------------------------------------------------
+
+_e2e = {}
+
+
+def e2e_db():
+    if 'db' not in _e2e:
+        from pony.orm import Database, Optional as Opt, Json, IntArray, StrArray
+        db = Database()
+        class T(db.Entity):
+            j = Opt(Json)
+            arr = Opt(IntArray)
+            sarr = Opt(StrArray)
+        db.bind('sqlite', ':memory:')
+        db.generate_mapping(create_tables=True)
+        _e2e['db'], _e2e['T'], _e2e['json1'] = db, T, db.provider.json1_available
+    return _e2e['db'], _e2e['T']
+
+
+E2E_DOCS = (
+    {'a': 1, 'b': 'x', 'c': None, 'd': True, 'e': [1, 'a', None], 'f': {'a': 2, 'g': []}, 'h': 0, 'i': '', 'j': False, 'k k': 3, 'l': 1.5},
+    {'a': 'a', 'e': [], 'f': {}, 'h': [0], 'b': {'b': 'x'}, 'k k': [1, 2, 3]},
+    {},
+    {'a': [[1, 2], {'a': 'a'}, 'a'], 'e': {'a': [1], 'e': None}, 'f': 2, 'h': 'a', 'b': 1},
+    [1, {'a': 5}, [7, 'a'], 'a'],                      # top-level array: only with json1 (fallback: known finding)
+)
+E2E_KEYS = ('a', 'e', 'f', 'h', 'k k', 'zz', 0, 1)
+# (kind, template): P projection, F filter; {0} {1} are keys, k is an external variable holding key {0}
+E2E_OPS = (
+    ('P', 't.j[{0}]'), ('P', 't.j[{0}][{1}]'), ('P', 't.j[k]'), ('P', 't.j[k][{1}]'), ('P', 'len(t.j[{0}])'),
+    ('F', 't.j[{0}] == 1'), ('F', "t.j[{0}] == 'a'"), ('F', 't.j[{0}] == 2'), ('F', 't.j[{0}][{1}] == 1'), ('F', "t.j[{0}][{1}] == 'a'"),
+    ('F', 't.j[{0}] != 1'), ('F', "'a' in t.j[{0}]"), ("F", "'a' in t.j"), ('F', "'a' not in t.j[{0}]"), ('F', 'len(t.j[{0}]) == 3'),
+    ('F', 't.j[{0}]'), ('F', 't.j[{0}][{1}]'), ('F', 't.j[k] == 1'), ('F', 't.j[{0}] == True'), ('F', 't.j[{0}] is None'),
+)
+
+
+class _Row(object):
+    def __init__(self, **kw): self.__dict__.update(kw)
+
+
+def _e2e_run(doc, kind, tmpl, k1, k2, json1, column='j'):
+    from pony.orm import db_session, rollback, core
+    db, T = e2e_db()
+    if json1 and not _e2e['json1']: return True            # no json1 in this SQLite build: nothing to run
+    expr = tmpl.format(repr(k1), repr(k2))
+    scope = {'k': k1}
+    # Python's answer
+    try:
+        want = eval(expr, {'len': len}, dict(scope, t=_Row(**{column: doc})))
+        raised = None
+    except (KeyError, IndexError, TypeError) as e:
+        want, raised = None, type(e).__name__
+    # regions with their own harnesses / outside the property
+    if 'len(' in expr and raised is None and type(eval('t.j[%r]' % (k1,), {}, {'t': _Row(j=doc)})) is not list: return True
+    if kind == 'F' and raised is not None: return True     # Python has no answer for the row: nothing to compare with
+    if 'len(' in expr and raised is not None: return True
+    if raised == 'TypeError': return True                  # subscript / len of a scalar: Python has no answer
+    if " in t.j" in expr and raised is None:
+        target = doc if expr.endswith('in t.j') else eval('t.j[%r]' % (k1,), {}, {'t': _Row(j=doc)})
+        if type(target) is str: return True                # substring test, not key / item membership
+    if ' is None' in expr: pass
+    db.provider.json1_available = json1
+    core_caches_clear(db)
+    try:
+        with db_session:
+            try:
+                T(**{column: doc})
+                core.flush()
+                src = '(%s for t in T)' % expr if kind == 'P' else '(t.id for t in T if %s)' % expr
+                got = core.select(src, {'T': T}, dict(scope))[:]
+            finally:
+                rollback()
+    finally:
+        db.provider.json1_available = _e2e['json1']
+    if kind == 'F':
+        return bool(got) == bool(want)
+    got = got[0] if got else None
+    if hasattr(got, 'get_untracked'): got = got.get_untracked()
+    if isinstance(got, tuple): got = list(got)
+    return got == want and (type(got) is type(want) or isinstance(want, (int, float)) and isinstance(got, (int, float)) and not isinstance(want, bool))
+
+
+def core_caches_clear(db):
+    """the SQL text depends on json1_available, which is flipped per path"""
+    from pony.orm import core
+    db._translator_cache.clear(); db._constructed_sql_cache.clear()
+
+
+def _json_e2e(d, op, k1, k2, json1):
+    d, op = conc(d, 5), conc(op, 20)
+    kind, tmpl = E2E_OPS[op]
+    k1 = conc(k1, 8) if ('{0}' in tmpl or 'k' in tmpl.replace('k k', '')) else 0
+    k2 = conc(k2, 3) if '{1}' in tmpl else 0
+    with NoTracing():
+        doc = E2E_DOCS[d]
+        key1, key2 = E2E_KEYS[k1], ('a', 0, 1)[k2]
+        if type(doc) is list and not json1: return ok(True)
+        # string key applied to an array value without json1: json_query_top_level_array / traverse_str_key_on_list
+        if not json1 and _hits_str_key_on_list(doc, tmpl, key1, key2): return ok(True)
+        if _hits_str_key_on_list(doc, tmpl, key1, key2, strings=True): return ok(True)
+        return ok(_e2e_run(doc, kind, tmpl, key1, key2, json1))
+
+
+def json_e2e_json1(d: int, op: int, k1: int, k2: int) -> bool:
+    """
+    pre: 0 <= d < 5 and 0 <= op < 20 and 0 <= k1 < 8 and 0 <= k2 < 3
+    post: _
+    """
+    return _json_e2e(d, op, k1, k2, True)
+
+
+def json_e2e_fallback(d: int, op: int, k1: int, k2: int) -> bool:
+    """
+    pre: 0 <= d < 5 and 0 <= op < 20 and 0 <= k1 < 8 and 0 <= k2 < 3
+    post: _
+    """
+    return _json_e2e(d, op, k1, k2, False)
+
+
+def _hits_str_key_on_list(doc, tmpl, k1, k2, strings=False):
+    """strings=False: a string key meets an array; strings=True: a subscript meets a string leaf (Python indexes the
+    characters, JSON has no value there: outside 'path access by key and index')"""
+    keys = []
+    if '{0}' in tmpl or '[k]' in tmpl: keys.append(k1)
+    if '{1}' in tmpl: keys.append(k2)
+    cur = doc
+    for k in keys:
+        if strings and type(cur) is str: return True
+        if not strings and type(cur) is list and type(k) is str: return True
+        cur = ref_get(cur, k)
+        if cur is MISSING: return False
+    return False
+
+
+def json_e2e_negative_index(json1: bool, two: bool) -> bool:
+    """ post: _ """
+    # negative list indexes in paths: doc['e'][-1]
+    json1, two = cbool(json1), cbool(two)
+    with NoTracing():
+        doc = {'e': [1, [2, 3], 4]}
+        return ok(_e2e_run(doc, 'P', 't.j[{0}][-1]' if not two else 't.j[{0}][-2][{1}]', 'e', -1, json1))
+
+
+E2E_ARRAYS = ([], [1], [1, 2, 3], [3, 3, 0, -1])
+E2E_ARRAY_OPS = (('P', 'len(t.arr)'), ('F', 't.arr'), ('F', '1 in t.arr'), ('F', '3 not in t.arr'), ('F', 'x in t.arr'), ('F', '[1, 2] in t.arr'),
+                 ('F', '[x, 3] in t.arr'), ('F', '[] in t.arr'), ('F', 'xs in t.arr'), ('P', 't.arr[0]'), ('P', 't.arr[1:]'), ('P', 't.arr[x]'),
+                 ('P', 't.arr[:x]'), ('F', 'len(t.arr) > x'), ('F', '[4] not in t.arr'))
+
+
+def array_e2e(a: int, op: int, x: int, xs: int) -> bool:
+    """
+    pre: 0 <= a < 4 and 0 <= op < 15 and 0 <= x <= 3 and 0 <= xs <= 2
+    post: _
+    """
+    a, op = conc(a, 4), conc(op, 15)
+    kind, expr = E2E_ARRAY_OPS[op]
+    x = conc(x, 4) if 'x' in expr.replace('xs', '') else 0
+    xs = conc(xs, 3) if 'xs' in expr else 0
+    with NoTracing():
+        from pony.orm import db_session, rollback, core
+        db, T = e2e_db()
+        arr = E2E_ARRAYS[a]
+        scope = {'x': x, 'xs': ([], [3], [1, 5])[xs]}
+        def member(items, arr):                           # `[..] in array` asks whether every item is in the array
+            return all(i in arr for i in items)
+        try:
+            if ' not in t.arr' in expr and expr.startswith('['): want = not member(eval(expr.split(' not in ')[0], {}, scope), arr)
+            elif ' in t.arr' in expr and (expr.startswith('[') or expr.startswith('xs')): want = member(eval(expr.split(' in ')[0], {}, scope), arr)
+            else: want = eval(expr, {'len': len}, dict(scope, t=_Row(arr=arr)))
+        except IndexError:
+            want = None
+        with db_session:
+            try:
+                T(arr=arr)
+                core.flush()
+                src = '(%s for t in T)' % expr if kind == 'P' else '(t.id for t in T if %s)' % expr
+                got = core.select(src, {'T': T}, dict(scope))[:]
+            finally:
+                rollback()
+        if kind == 'F': return ok(bool(got) == bool(want))
+        got = got[0] if got else None
+        if got is not None and not isinstance(got, int): got = list(got)
+        return ok(got == want)
+
+
+CMP_LEAVES = (1, '1', 1.5, True, 'abc', [1], 0, False, '', 2, {'a': 1}, '1abc', 'a')
+CMP_CONSTS = (1, 0, 'a', '1', 1.5, True, 2)
+
+
+def json_e2e_scalar_compare(v: int, c: int, ne: bool, json1: bool) -> bool:
+    """
+    pre: 0 <= v < 13 and 0 <= c < 7
+    post: _
+    """
+    # t.j['x'] == c / != c for a stored leaf of ANY JSON type (the comparison is translated to CAST(json_extract(..) AS
+    # <type of c>) = c): the row is selected exactly when Python's doc['x'] == c / != c
+    v, c, ne, json1 = conc(v, 13), conc(c, 7), cbool(ne), cbool(json1)
+    with NoTracing():
+        return ok(_e2e_run({'x': CMP_LEAVES[v]}, 'F', 't.j[{0}] %s %r' % ('!=' if ne else '==', CMP_CONSTS[c]), 'x', 0, json1))
